@@ -1452,6 +1452,34 @@ skip_whitespace(int c) {
 }
 
 /**
+ * Like skip_whitespace(), but does not go past the end of the line: a '#'
+ * with nothing after it on its line is a null directive, and whatever is on
+ * the next line is not part of it.
+ */
+int CPPPreprocessor::
+skip_whitespace_in_line(int c) {
+  while (c != EOF) {
+    c = skip_comment(c);
+
+    if (c == '\\') {
+      if (peek() != '\n') {
+        return '\\';
+      }
+      // A continuation: the directive goes on on the next line.
+      get();
+      c = get();
+      continue;
+    }
+
+    if (c == '\n' || !isspace(c)) {
+      return c;
+    }
+    c = get();
+  }
+  return c;
+}
+
+/**
  *
  */
 int CPPPreprocessor::
@@ -1648,7 +1676,7 @@ skip_digit_separator(int c) {
 int CPPPreprocessor::
 process_directive(int c) {
   assert(c == '#');
-  c = skip_whitespace(get());
+  c = skip_whitespace_in_line(get());
 
   int begin_line = get_line_number();
   int begin_column = get_col_number();
@@ -1694,6 +1722,8 @@ process_directive(int c) {
     handle_pragma_directive(args, loc);
   } else if (command == "ident") {
     // Quietly ignore idents.
+  } else if (command.empty() && args.empty()) {
+    // A null directive.
   } else if (command == "error") {
     handle_error_directive(args, loc);
   } else if (command == "warning") {
@@ -2038,7 +2068,7 @@ skip_false_if_block(bool consider_elifs) {
   int c = skip_comment(get());
   while (c != EOF) {
     if (c == '#' && _start_of_line) {
-      c = skip_whitespace(get());
+      c = skip_whitespace_in_line(get());
 
       YYLTYPE loc;
       loc.file = get_file();
